@@ -11,10 +11,10 @@ use chumsky::cache::{Cache, Cached};
 use chumsky::error::Rich;
 use chumsky::prelude::*;
 
-use crate::ast::*;
-use crate::build::*;
-use crate::run::{build_case, run_one, run_one_p, BASE};
-use crate::val::*;
+use chumsky_verif_harness::ast::*;
+use chumsky_verif_harness::build::*;
+use chumsky_verif_harness::run::{build_case, run_one, run_one_p, BASE};
+use chumsky_verif_harness::val::*;
 
 type E<'src> = Rich<'src, char, Sp>;
 
@@ -331,7 +331,7 @@ pub fn run_threads(nthreads: usize, rounds: usize, w: &mut dyn Write) {
 }
 
 pub fn main() {
-    crate::run::install_panic_hook();
+    chumsky_verif_harness::run::install_panic_hook();
     let args: Vec<String> = std::env::args().collect();
     let seed: u64 = args.get(1).and_then(|s| s.parse().ok()).unwrap_or(1);
     let stdin = std::io::stdin();
